@@ -150,9 +150,9 @@ func runC10(c *mon.Ctx) {
 		}
 		ns = append(ns, 511, 512, 513, 1023, 1024, 1025, 2047, 2048, 2049, 4095, 4096, 4097)
 	}
-	hs := []int{1, 2, 3, 4, 8}
+	hs := []int{1, 2, 3, 4, 8, 30} // 30 is the largest height the tile functions accept
 	if !c.Quick() {
-		hs = []int{1, 2, 3, 4, 5, 6, 7, 8, 9, 10}
+		hs = []int{1, 2, 3, 4, 5, 6, 7, 8, 9, 10, 29, 30}
 	}
 	maxN := ns[len(ns)-1]
 	recs := genRecords(c.GlobalRng("records"), maxN)
